@@ -445,8 +445,8 @@ class Judge:
                 if pid in ids_after:
                     bad("PaymentFailed but the entry is still tracked (a later event can contradict it)")
                 rb = self.row(before, pid)
-                if rb is not None and rb[1] in (0, 2) and len(rb[13:]) > 1:
-                    bad("PaymentFailed while more than one HTLC was still pending")
+                if rb is not None and rb[1] in (0, 2) and len(rb[13:]) > (1 if op["k"] == "fail" else 0):
+                    bad("PaymentFailed while an HTLC of the payment was still pending")
             elif t == 4:
                 pos, nh = o[5], o[6]
                 if o[4] == 1:
@@ -546,6 +546,7 @@ def shrink(ctx, ops, idem, budget=60):
     if not f:
         return cur, f
     cur = cur[:f[0]["op_index"] + 1]
+    kind = f[0]["why"][:40]
     i = len(cur) - 2
     while i >= 0 and budget > 0:
         cand = cur[:i] + cur[i + 1:]
@@ -554,7 +555,7 @@ def shrink(ctx, ops, idem, budget=60):
             _, _, f2 = run_impl_sequence(ctx, cand, len(cand), idem)
         except Exception:
             f2 = []
-        if f2:
+        if f2 and f2[0]["why"][:40] == kind:
             cur = cand[:f2[0]["op_index"] + 1]
             f = f2
             i = min(i, len(cur) - 1)
@@ -564,7 +565,7 @@ def shrink(ctx, ops, idem, budget=60):
 
 def functional(ctx, model_ok):
     rng = ctx.rng.fork("outbound-functional")
-    nseq, nops = (160, 60) if ctx.tier == "quick" else (6000, 80)
+    nseq, nops = (160, 60) if ctx.tier == "quick" else (2000, 80)
     seqs = []
     judge_fails = []
     kinds = {}
@@ -698,7 +699,7 @@ def run(ctx):
     if e2e_fails:
         for f in e2e_fails[:3]:
             ctx.violation("end-to-end payment scenario violates C03: " + f.get("why", ""),
-                          {"broken": "e2e judge (h_payflow)", "scenario": f, "replay_cmd": "%s replay '%s'" % (ctx.bin_path("h_payflow"), json.dumps(f.get("params", {})))}, True,
+                          {"broken": "e2e judge (h_payflow)", "scenario": f, "replay_cmd": "%s replay %s" % (ctx.bin_path("h_payflow"), f.get("params", ""))}, True,
                           key="e2e:" + f.get("scenario", "?") + ":" + f.get("why", ""))
     broken = []
     if not proved:
